@@ -769,6 +769,17 @@ class Interp:
         if isinstance(a, slice) or isinstance(b, slice):
             r = isinstance(a, slice) and isinstance(b, slice) and self._slice_eq(a, b)
             return r if sym == "==" else T.Not(r)
+        if sym in ("==", "!="):
+            # dtype of a modelled array against a Python / NumPy scalar type
+            def _dt(x):
+                if isinstance(x, Opaque) and x.what.startswith("dtype:"):
+                    return x.what[6:]
+                nm = getattr(x, "name", None) or getattr(x, "path", None)
+                return {"float": "real", "np.float64": "real", "np.floating": "real", "int": "int", "np.int64": "int", "np.int_": "int",
+                        "bool": "bool", "np.bool_": "bool"}.get(nm) if isinstance(x, (TypeRef, Builtin, Marker)) else None
+            da, db = _dt(a), _dt(b)
+            if da is not None and db is not None and (isinstance(a, Opaque) or isinstance(b, Opaque)):
+                return (da == db) if sym == "==" else (da != db)
         if isinstance(a, (Opaque, TypeRef, ClassRef)) or isinstance(b, (Opaque, TypeRef, ClassRef)):
             raise PathAbort("comparison of opaque values", ctx.cur_line)
         if a is None or b is None or isinstance(a, str) or isinstance(b, str):
@@ -966,14 +977,33 @@ class Interp:
                     e2[g.target.id] = it.item(i)
                     return self.eval(n.elt, e2)
                 return Arr((length,), fn, T.sort_of(probe), kind="list")
+        if isinstance(it, SymRange) and not g.ifs and getattr(it, "step", 1) == 1:
+            it = SymList(it.length(), it.item, kind="list")
         if isinstance(it, SymList) and not g.ifs:
             # definitional list: item i is the element expression evaluated with the target bound to
             # the i-th item of the iterable (re-evaluated for every index term it is asked for)
-            def item(i, self=self, env=env, it=it):
+            def item_raw(i, self=self, env=env, it=it):
                 e2 = dict(env)
                 self.assign(g.target, it.item(i), e2)
                 return self.eval(n.elt, e2)
-            probe = item(T.fresh_int("lc"))
+
+            # obligations of the element expression (index bounds, callee preconditions) are generated once,
+            # for a generic index under the guard "index in range"; later instantiations add none
+            i0 = T.fresh_int("lc")
+            ctx_ = self.ctx
+            ctx_.guards.append(z3.And(0 <= i0, T.tz(T.lt(i0, it.length))))
+            try:
+                probe = item_raw(i0)
+            finally:
+                ctx_.guards.pop()
+
+            def item(i, ctx_=ctx_):
+                old = ctx_.suppress
+                ctx_.suppress = True
+                try:
+                    return item_raw(i)
+                finally:
+                    ctx_.suppress = old
             if T.is_scalar(probe):
                 return Arr((it.length,), item, T.sort_of(probe), kind="list")
             return SymList(it.length, item, kind="list")
